@@ -578,6 +578,8 @@ fn leaf_strategy() -> impl Strategy<Value = V> {
         string_strategy().prop_map(V::Str),
         string_strategy().prop_map(V::Str),
         prop::collection::vec(any::<u8>(), 0..6).prop_map(V::Bytes),
+        // byte strings longer than any plausible internal run length
+        prop_oneof![2 => prop::collection::vec(any::<u8>(), 6..80), 1 => prop::collection::vec(any::<u8>(), 80..700)].prop_map(V::Bytes),
         Just(V::None),
         Just(V::Unit),
         Just(V::UnitStruct),
